@@ -17,6 +17,9 @@ import AiuVerif.Props.C03
 import AiuVerif.Gen.Sites
 import AiuVerif.Lemmas.Sort
 import AiuVerif.Props.C04
+import AiuVerif.Props.C13
+import AiuVerif.Props.C17
+import AiuVerif.Props.C20
 
 namespace AiuVerif.C01
 open AiuVerif.Conserve RS
@@ -188,6 +191,51 @@ theorem overlap_drop_conserves (evs out : List Overlap.Ev)
   refine ⟨l.map (·.uid), ?_⟩
   have h1 : ((out ++ l).map (·.uid)).Perm (evs.map (·.uid)) := (hl.symm.trans hperm).map _
   simpa using h1
+
+/-- **`queueing_counter` is filter class** (model tied to the code by C13's correspondence): the
+events it passes on are a sub-list of its input, in order — with `--keep_prep` all of them,
+without it exactly the non-Prep ones.  Nothing is duplicated, nothing else disappears. -/
+theorem prep_stage_conserves (keep : Bool) (evs : List Preps.PEv) (outs : List Preps.Out)
+    (h : Preps.runStage keep evs = .ok outs) :
+    (Preps.passes outs).Sublist (evs.map (·.uid)) := by
+  cases keep with
+  | true => rw [C13.stage_pass_keep evs outs h]; exact List.Sublist.refl _
+  | false =>
+    rw [C13.stage_pass_drop evs outs h]
+    exact (List.filter_sublist).map _
+
+theorem map_fst_zip_sublist {α β : Type} : ∀ (l₁ : List α) (l₂ : List β),
+    ((l₁.zip l₂).map (·.1)).Sublist l₁
+  | [], _ => by simp
+  | _ :: _, [] => by simp
+  | a :: l₁, b :: l₂ => by
+    simp only [List.zip_cons_cons, List.map_cons]
+    exact (map_fst_zip_sublist l₁ l₂).cons_cons a
+
+/-- **`normalize_phase1` is filter class** (`--event_limit` / `--event_filter`; model tied to the code
+by C17's correspondence): the uids leaving the stage are a sub-list of the uids entering it. -/
+theorem limit_filter_stage_conserves {ρ : Type} (m : ρ → String → Bool) (c : Limit.Cfg)
+    (fs : List (List String × ρ)) (cnt : Nat) (evs : List Limit.Ev)
+    (h : (Limit.run m c fs cnt evs).2 = none) :
+    ((Limit.run m c fs cnt evs).1.map (·.uid)).Sublist (evs.map (·.uid)) := by
+  rw [C17.stage_selects m c fs cnt evs h]
+  have h1 : ((evs.zip (Limit.limitFlags c cnt evs)).filter
+      (fun p => p.2 && !Limit.dropsByFilter m fs p.1)).Sublist (evs.zip (Limit.limitFlags c cnt evs)) :=
+    List.filter_sublist
+  have h2 := h1.map (fun p => p.1.uid)
+  refine h2.trans ?_
+  have : (evs.zip (Limit.limitFlags c cnt evs)).map (fun p => p.1.uid)
+      = ((evs.zip (Limit.limitFlags c cnt evs)).map (·.1)).map (·.uid) := by
+    simp [List.map_map, Function.comp_def]
+  rw [this]
+  exact (map_fst_zip_sublist _ _).map _
+
+/-- **`communication_event_apply` is merge class** (model tied to the code by C20's correspondence):
+every slice that is not a member of a send sequence leaves exactly once, unchanged, in order. -/
+theorem comm_stage_non_members (evs : List Comm.CEv) (outs : List Comm.COut) (left : Nat)
+    (h : Comm.summarize evs = .ok (outs, left)) :
+    Comm.passesOf outs = evs.filter (fun ev => Comm.memberKey ev == none) :=
+  C20.non_members_unchanged evs outs left h
 
 /-! ### non-vacuity: a holder, a filter and a duplicating-of-nonslices stage -/
 def holdAll : RS (Option Nat) :=
